@@ -14,6 +14,9 @@ pub struct C13;
 #[derive(PartialEq, Clone, Copy, Debug)]
 pub enum Place {
     At(usize),
+    /// either position satisfies the statement as far as it can be read (traditional joining puts a non-joiner between
+    /// the conjunct and its sign: "ends in the conjunct followed by one sign" can be read either way)
+    Either(usize, usize),
     Unspecified(&'static str),
     NotGrammar,
 }
@@ -31,6 +34,7 @@ pub fn expected_place(p: &[char]) -> Place {
     let mut i = 0;
     // (start of final conjunct, open (nothing closes the syllable), independent vowel follows the cluster, joiner inside)
     let mut last_unit: Option<(usize, bool, bool, bool)> = None;
+    let mut last_tjoin = false;
     while i < n {
         let c = p[i];
         if is_consonant(c) {
@@ -58,7 +62,12 @@ pub fn expected_place(p: &[char]) -> Place {
             }
             let mut open = true;
             let mut indep = false;
-            if i < n && is_kar(p[i]) {
+            let mut tjoin = false;
+            if i + 1 < n && p[i] == ZWNJ && matches!(p[i + 1], 'ু' | 'ূ' | 'ৃ') {
+                // the non-joiner traditional joining puts in front of a ligature-making sign
+                i += 2;
+                tjoin = true;
+            } else if i < n && is_kar(p[i]) {
                 i += 1;
             } else if i < n && is_vowel_letter(p[i]) {
                 i += 1;
@@ -72,6 +81,7 @@ pub fn expected_place(p: &[char]) -> Place {
                 open = false;
             }
             last_unit = Some((conj_start, open, indep, joiner));
+            last_tjoin = tjoin;
         } else if is_vowel_letter(c) {
             i += 1;
             if i < n && p[i] == CHANDRA {
@@ -81,9 +91,11 @@ pub fn expected_place(p: &[char]) -> Place {
                 i += 1;
             }
             last_unit = Some((n, false, false, false));
+            last_tjoin = false;
         } else if c.is_ascii_punctuation() || is_bengali_digit(c) || c == '।' {
             i += 1;
             last_unit = Some((n, false, false, false));
+            last_tjoin = false;
         } else {
             return Place::NotGrammar;
         }
@@ -91,6 +103,7 @@ pub fn expected_place(p: &[char]) -> Place {
     match last_unit {
         Some((_, true, _, true)) => Place::Unspecified("joiner (ZWJ/ZWNJ) inside the final consonant cluster"),
         Some((_, true, true, _)) => Place::Unspecified("consonant cluster directly followed by an independent vowel"),
+        Some((s, true, false, false)) if last_tjoin => Place::Either(s, n),
         Some((s, true, false, false)) => Place::At(s),
         Some((_, false, _, _)) => Place::At(n),
         None => Place::At(0),
@@ -128,6 +141,7 @@ struct Tally {
     placement_judged: u64,
     placement_moved: u64,
     placement_end: u64,
+    placement_either: u64,
     unspecified: u64,
     not_grammar: u64,
     empty_text: u64,
@@ -194,6 +208,15 @@ fn judge(sess: &Sess, spec: &CfgSpec, keys: &[(u16, u8)], reph: (u16, u8), out: 
     match expected_place(&pc) {
         Place::NotGrammar => t.not_grammar += 1,
         Place::Unspecified(_) => t.unspecified += 1,
+        Place::Either(a, b) => {
+            t.placement_either += 1;
+            out.distinct(fnv_str(&[&p]));
+            if !positions.contains(&a) && !positions.contains(&b) {
+                let shape: String = pc.iter().rev().take(4).rev().map(|&c| class_letter(c)).collect();
+                out.violation("placement", format!("c13:placement:tail={shape}:neither-before-conjunct-nor-end"), case_json(spec, keys, reph),
+                              format!("reph at code point {a} or {b} of {p:?}"), format!("{q:?}"));
+            }
+        }
         Place::At(k) => {
             t.placement_judged += 1;
             if k == pc.len() {
@@ -252,6 +275,7 @@ fn flush(t: &Tally, out: &mut Out) {
     out.count("placement_judged", t.placement_judged);
     out.count("placement_expected_moved", t.placement_moved);
     out.count("placement_expected_end", t.placement_end);
+    out.count("placement_traditional_joiner_either", t.placement_either);
     out.count("placement_unspecified", t.unspecified);
     out.count("outside_grammar", t.not_grammar);
     out.count("empty_text", t.empty_text);
@@ -328,6 +352,7 @@ impl Prop for C13 {
     fn assumptions(&self) -> Vec<String> {
         vec![
             "well-formedness is decided by the harness grammar O-syll: C(্C)*[sign|vowel][ঁ][ং|ঃ], independent vowels, digits, punctuation".into(),
+            "when traditional joining has put a non-joiner between the final conjunct and its sign (ক + ZWNJ + ু), the reph must be either in front of the conjunct or at the end (both readings of the statement are accepted)".into(),
             "placement is not judged (conservation still is) when the final cluster is directly followed by an independent vowel, when a joiner (ZWJ/ZWNJ) occurs inside the final cluster, or when the text is outside the grammar".into(),
         ]
     }
@@ -338,7 +363,7 @@ impl Prop for C13 {
         true
     }
     fn minima(&self, _tier: Tier) -> Vec<(&'static str, u64)> {
-        vec![("conservation_judged", 10_000), ("placement_expected_moved", 2_000), ("placement_expected_end", 1_000), ("empty_text", 4), ("option_off_append_judged", 1_000)]
+        vec![("conservation_judged", 10_000), ("placement_expected_moved", 2_000), ("placement_expected_end", 1_000), ("empty_text", 4), ("placement_traditional_joiner_either", 200), ("option_off_append_judged", 1_000)]
     }
     fn run_shard(&self, env: &Env, out: &mut Out) {
         let Ok(oracle) = LayoutOracle::load(Lay::Verif) else {
